@@ -13,10 +13,17 @@
      parameter selects (or the elements of the single array of a path that is not a value group),
      exactly once, and is not called at all when the parameter selects nothing; a failing function
      yields ErrorFunctionFailed naming that node.
+   * C14_functions_from_text / C14_calls_from_text — the same for the path TEXT: `$` steps `.f()` `.g()` ... with steps
+     any names, indexes, wildcards, slices and unions (each possibly after `..`) and f, g registered filter
+     functions parses, returns for each value the steps reach (nav_all, defined on the document alone), in the order
+     they reach them, g(f(value)) — dropping a value on which a function fails, failing when none is left — and its
+     call log is exactly: for each of those values in that order, f on it, then g on what f returned, until one fails.
    Scope: user functions inside filter operands are outside C14_call_log (their calls are
    short-circuited by && / || by design); they are compared with the model call by call on every
    generated case, like everything else. *)
 From JP Require Import Eval WF Verdict Spec CallDefs Actions EvalInv1 EvalInv3 EvalInv4 Refine1 Refine2 CallFacts SpecCalls SpecCallsCompose.
+From JP Require Import Json Text Tree Grammar KeyDefs ChainParse ChainAddr FunParse FunAddr.
+From Coq Require Import List NArith ZArith String. Import ListNotations.
 
 Theorem C14_call_log : forall ffun afun regex_match,
   (forall f v w, small v -> ffun f v = Some w -> small w) ->
@@ -37,7 +44,7 @@ Print Assumptions C14_filter_function_once_per_value.
 Theorem C14_filter_function_node : forall ffun afun regex_match f b next root cur c st,
   retrieve ffun afun regex_match (Node (KFFun f) b next) root cur c st =
   match ffun f (snd cur) with
-  | Some v => fwd ffun afun regex_match b next root false (None, v) c (log_call (CallF f (snd cur)) st)
+  | Some v => EvalInv3.fwd ffun afun regex_match b next root false (None, v) c (log_call (CallF f (snd cur)) st)
   | None => (c, Some (EFunc b), log_call (CallF f (snd cur)) st)
   end.
 Proof. exact ffun_node_call. Qed.
@@ -55,8 +62,46 @@ Theorem C14_aggregate_node : forall ffun afun regex_match,
    let st3 := log_call (CallA f (agg_args ffun afun regex_match param root cur)) st1 in
    retrieve ffun afun regex_match (Node (KAgg f param) b next) root cur c st =
    match afun f (agg_args ffun afun regex_match param root cur) with
-   | Some v => fwd ffun afun regex_match b next root false (None, v) c st3
+   | Some v => EvalInv3.fwd ffun afun regex_match b next root false (None, v) c st3
    | None => (c, Some (EFunc b), st3)
    end).
 Proof. exact agg_node_call. Qed.
 Print Assumptions C14_aggregate_node.
+
+Theorem C14_functions_from_text : forall cfg parse_float regex_ok ffun afun regex_match,
+  (forall f v w, small v -> ffun f v = Some w -> small w) ->
+  (forall f l w, Forall small l -> afun f l = Some w -> small w) ->
+  forall x r f fs doc st, forallb rstep_ok (x :: r) = true -> forallb fname_ok (f :: fs) = true ->
+  forallb (fun_known cfg) (f :: fs) = true -> small doc -> ok st ->
+  exists t, parse_with cfg parse_float regex_ok jsonpath_grammar (chain_fun_path (x :: r) (f :: fs)) = ParseOk t /\
+            match funs_all cfg ffun (f :: fs) (nav_all (x :: r) ([], doc)) with
+            | [] => exists e, fst (eval_run ffun afun regex_match t doc st) = OErr e
+            | l => fst (eval_run ffun afun regex_match t doc st) = OOk l
+            end.
+Proof. exact chain_fun_retrieval. Qed.
+Print Assumptions C14_functions_from_text.
+
+Theorem C14_calls_from_text : forall cfg parse_float regex_ok ffun afun regex_match,
+  (forall f v w, small v -> ffun f v = Some w -> small w) ->
+  (forall f l w, Forall small l -> afun f l = Some w -> small w) ->
+  forall x r f fs doc st, forallb rstep_ok (x :: r) = true -> forallb fname_ok (f :: fs) = true ->
+  forallb (fun_known cfg) (f :: fs) = true -> small doc -> ok st ->
+  exists t, parse_with cfg parse_float regex_ok jsonpath_grammar (chain_fun_path (x :: r) (f :: fs)) = ParseOk t /\
+            calls (snd (eval_run ffun afun regex_match t doc st)) =
+            calls st ++ calls_all ffun (f :: fs) (nav_all (x :: r) ([], doc)).
+Proof. exact chain_fun_calls. Qed.
+Print Assumptions C14_calls_from_text.
+
+(* the premises are met, and the statement says something: two elements, the second one refused by the first function *)
+Example C14_from_text_example :
+  let doc := VObj [("a", VArr [VNum (num_of_Z 1); VStr "x"; VNum (num_of_Z 3)])]%string in
+  let ffun := fun (f : string) (v : value) =>
+                match v with VNum _ => if String.eqb f "id" then Some v else Some (VArr [v]) | _ => None end in
+  let fs := [[105; 100]; [119]] in
+  let steps := [RPlain (SDot [97]); RPlain (SWild false)] in
+  chain_fun_path steps fs = [36; 46; 97; 91; 42; 93; 46; 105; 100; 40; 41; 46; 119; 40; 41] /\
+  forallb rstep_ok steps = true /\ forallb fname_ok fs = true /\
+  calls_all ffun fs (nav_all steps ([], doc)) =
+    [CallF "id" (VNum (num_of_Z 1)); CallF "w" (VNum (num_of_Z 1)); CallF "id" (VStr "x");
+     CallF "id" (VNum (num_of_Z 3)); CallF "w" (VNum (num_of_Z 3))]%string.
+Proof. cbv zeta. repeat split; vm_compute; reflexivity. Qed.
